@@ -27,6 +27,7 @@ func init() {
 			"half random over declared names + an undeclared one; empty input; with and without the final terminator). Each unit carries a unique id. The " +
 			"real reader's transcript (delivered target trees with their ancestor chain, then EOF/FATAL) must equal the recursive reference matcher's; no " +
 			"unit id may be delivered twice. Thorough tier additionally enumerates every unit sequence of length <=5 over 4 names for each hierarchy. " +
+			"A quarter of the hierarchies are 4-6 levels deep with chains of nested groups. " +
 			"distinct = digest(hierarchy, sequence); non-trivial = the hierarchy has a group or nesting and the reference took >=1 'does not fit, move on' step and >=1 target was delivered.",
 		Assumptions: []string{
 			"the reference matcher is the documented greedy, non-backtracking semantics (doc/edi_in_depth.md, csv2/fixedlength2 docs) written recursively, sharing no code with the readers",
